@@ -27,7 +27,14 @@ PROP = {'rule': 'rapid state machine over GroupQuotaManager (unit core: the plug
          'quota and the label of its last delivered object names an existing quota; non-trivial = a migrate step for a pod that was moved, '
          'deleted or updated since the snapshot. In every plugin unit about half of the quota and pod deletes are delivered as '
          'cache.DeletedFinalStateUnknown{Key, Obj} values (tombstones; which ones is derived from the object\'s name and resource version, '
-         'not drawn). Unit coreConcurrentBurst (no -race): chain root <- 1-3 ancestors <- leaf with max 2-12 units, a '
+         'not drawn). Unit pluginMultiTree: the history state machine under feature gate MultiQuotaTree (set per case, reset after): a '
+         'top-level quota may open its own quota tree t1/t2 (tree-id + is-root labels, own manager without default quota), children '
+         'inherit the tree, a quota never changes its tree; pods are routed by quota name to the tree\'s manager, pods created before '
+         'their tree quota wait in the default quota of the default tree and are carried over by the migrate cycle (run right after each '
+         'quota creation in 3/4 of the cases); the oracle reads GetQuotaSummaries(true) of EVERY tree manager: each quota reported by '
+         'exactly its tree\'s manager, each pod counted in exactly one quota of one tree, all figures recomputed from scratch, and a fresh '
+         'manager per tree at the end; non-trivial = a pod carried into another tree by the migrate cycle or moved between trees by a '
+         'relabel. Unit coreConcurrentBurst (no -race): chain root <- 1-3 ancestors <- leaf with max 2-12 units, a '
          'base load, 2-6 goroutines each owning 1-2 pods and applying a generated pattern of add/resize/delete events (sizes 1, 2, '
          'gap-to-max, gap+1, max) repeated 1-400 times so the leaf keeps crossing its max; all joined, then the same oracle at quiescence; '
          'non-trivial = a goroutine that both grows and shrinks (>= 50 calls), >= 2 growing goroutines, >= 200 calls.',
@@ -51,6 +58,8 @@ PROP = {'rule': 'rapid state machine over GroupQuotaManager (unit core: the plug
                  'probabilistic and needs GOMAXPROCS >= 2 (the driver sets 16)',
                  'the interleaving of the migrate cycle with other events is harness-owned and at the granularity of whole manager calls '
                  '(each takes the manager\'s lock): snapshot, optional event, per-pod migrate step',
+                 'multi-tree unit: tree ids are fixed per quota, the root quota of a tree is neither re-parented nor turned into a leaf; '
+                 'the abstract root groups of the trees are not asserted',
                  'for a pod reserved while it is parked in the default quota although its own quota already exists, either quota is accepted '
                  'as the place where the reservation is charged (the statement does not fix it); it must be charged exactly once'],
  'units': [{'name': 'core',
@@ -66,7 +75,8 @@ PROP = {'rule': 'rapid state machine over GroupQuotaManager (unit core: the plug
             'files': ['C01/c01_model_plugin_test.go', 'C01/c01_plugin_test.go'],
             'tests': [{'run': 'TestVerifC01PluginHistory', 'quick': 300, 'thorough': 1500, 'shards': 6, 'steps': 40},
                       {'run': 'TestVerifC01PluginParked', 'quick': 200, 'thorough': 1000, 'shards': 4, 'steps': 30},
-                      {'run': 'TestVerifC01PluginMigrateRace', 'quick': 200, 'thorough': 1000, 'shards': 4, 'steps': 30}]}],
+                      {'run': 'TestVerifC01PluginMigrateRace', 'quick': 200, 'thorough': 1000, 'shards': 4, 'steps': 30},
+                      {'run': 'TestVerifC01PluginMultiTree', 'quick': 300, 'thorough': 1500, 'shards': 6, 'steps': 40}]}],
  'manifest': {'technique': 'property-based testing (rapid): model-based state machine over quota/pod/node event histories with a from-scratch '
                            'reference recomputation and a fresh-instance differential; concurrent variant under the race detector',
               'text': 'Generated-input search: histories of quota create/update/re-parent/delete, pod add/update/move/delete, '
